@@ -28,7 +28,7 @@ TRUSTED = [
     "before the '.'/'e' in that case",
     "CID law (hypothesis of the theorems, exercised on go-cid every run): cid.Decode(c.String()) = c for every defined CID",
     "refmt v0.90 JSON encoder/decoder, encoding/base64, unicode/utf8, unicode/utf16: hand-modelled in coq/Codec/{DagJson,Base64,Utf8}.v; tied by correspondence only",
-    "Go sort.Slice sorts correctly w.r.t. the comparator (the model uses insertion sort; uniqueness of the sorted permutation is proved)",
+    "Go sort.Slice sorts correctly w.r.t. the comparator it is given (the model uses insertion sort; uniqueness of the sorted permutation is proved); the comparator closures themselves are translated from the source by gotrans and proved equal to the model's orders (C04_source_key_order), taking Go's string < to be bytewise (GoSem.str_ltb)",
     "basicnode map assembler refuses a repeated key (modelled as the `seen` check in unm_map)",
     "dagjson defaultMaxDepth = 1024 is copied into the model (not in the gotrans white-list); the depth boundary is exercised by the harness",
 ]
